@@ -3,6 +3,7 @@ import KpModel.Db.MergeInv
 import KpModel.Db.MergeLemmas
 import KpModel.Db.MergeLww
 import KpModel.Db.MergeLwwG
+import KpModel.Db.MergeQuiet
 /-!
 # C13 — merging is idempotent and merging a database with itself changes nothing
 Property theorems only.  Faithful model: `KpModel/Db/Merge.lean` (tied to `Database::merge` by the
@@ -314,5 +315,14 @@ theorem C13_twice_group_content_partial (now now' : Int) (dst src d1 d2 : Db) (e
   · split
     · rfl
     · exact a.symm
+
+/-- **C13 (a merge that reports no event changed nothing)**: every mutation `merge` performs goes with an event (an entry or
+    group created, updated, moved or deleted); when the log it returns is empty, the tree and the tombstone list of the result
+    are the destination's.  So of the two halves of "reports no events and leaves it unchanged" the first implies the second,
+    for every destination that is a group with pairwise distinct UUIDs below it and every source. -/
+theorem C13_no_events_means_unchanged (now : Int) (dst src d' : Db) (hr : dst.root.isGroup = true)
+    (hn : (uuidsL dst.root.children).Nodup) (h : merge now dst src = .ok (d', [])) :
+    d'.root = dst.root ∧ d'.tombs = dst.tombs :=
+  merge_quiet now dst src d' ⟨hr, hn⟩ h
 
 end Kp.Merge
